@@ -38,8 +38,9 @@ RIGHT_POOLS = {
                      ((sq(0, 0, 8, 8)[1:] + sq(0, 0, 8, 8)[1:2], sq(4, 4, 6, 6)[::-1][2:] + sq(4, 4, 6, 6)[::-1][1:3]),),
                      ((sq(0, 0, 8, 8)[::-1], sq(4, 4, 6, 6)[1:] + sq(4, 4, 6, 6)[1:2]), (sq(10, 10, 12, 12),))],
     # the first two lines share the bounding box (4,4)-(6,6)
-    "line": [((4, 4), (6, 6)), ((4, 6), (6, 6), (6, 4)), ((0, 2), (2, 0)), ((20, 0), (21, 0)), ((3, 0), (3, 2), (3, 2))],
-    "multiline": [(((4, 4), (6, 6)), ((0, 2), (2, 0))), (((8, 8), (10, 10)),)],
+    # ((1, 1),) / ((9, 9),): a part with a single vertex has no segment at all, a point on it still intersects
+    "line": [((4, 4), (6, 6)), ((4, 6), (6, 6), (6, 4)), ((0, 2), (2, 0)), ((20, 0), (21, 0)), ((3, 0), (3, 2), (3, 2)), ((1, 1),)],
+    "multiline": [(((4, 4), (6, 6)), ((0, 2), (2, 0))), (((8, 8), (10, 10)),), (((0, 2), (2, 0)), ((9, 9),))],
     # ((1,9),(9,1)) contains neither (1,1) nor (9,9) although x and y each occur in some member;
     # the first two multipoints share the bounding box
     "multipoint": [((5, 5), (9, 0)), ((5, 0), (9, 5)), ((1, 1),), ((1, 9), (9, 1)), ((7, 7), (9, 9), (3, 1))],
@@ -181,7 +182,23 @@ def run_case(col, kind, lrows, rrows, lstyle, rstyle, extra, how, suf, case):
             else:
                 exp_rows.append([rlabels[j]] + [None] * nlev + [None] + ([None] if clash else []) + tail)
         exp_index_names = [rname]
-    # ---------------- observed
+    # ---------------- observed: the pandas result, and the result with the same left frame held by Dask (2 partitions)
+    results = [("", res)]
+    if how != "right" and nl >= 2 and lstyle in ("default", "named") and (nl + nr + len(kind)) % 2 == 0:
+        import dask.dataframe as dd
+        col.count("evaluations")
+        try:
+            results.append(("dask-left:", sjoin(dd.from_pandas(left, npartitions=2), right, how=how, lsuffix=lsuf, rsuffix=rsuf)
+                            .compute(scheduler="synchronous")))
+        except Exception as ex:
+            col.violation("sjoin.dask_left.raises", case, f"{type(ex).__name__}: {str(ex)[:300]}", how=how, kind=kind)
+    for tag, res in results:
+        _observe(col, case, tag, res, how, kind, lrows, rrows, exp_cols, exp_rows, exp_index_names, clash, npairs)
+    col.outcome(f"{how}:pairs={min(npairs, 4)}")
+
+
+def _observe(col, case, tag, res, how, kind, lrows, rrows, exp_cols, exp_rows, exp_index_names, clash, npairs):
+    from spatialpandas import GeoDataFrame
     if not isinstance(res, GeoDataFrame):
         col.violation("sjoin.type", case, f"result type {type(res).__name__}", how=how)
         return
@@ -210,10 +227,9 @@ def run_case(col, kind, lrows, rrows, lstyle, rstyle, extra, how, suf, case):
     if got != want:
         missing = list((want - got).elements())[:3]
         extra_rows = list((got - want).elements())[:3]
-        col.violation(f"sjoin.rows.{how}", case,
-                      f"how={how} kind={kind} left={jelem(tuple(lrows))} right rows={len(rrows)}: missing {missing} unexpected {extra_rows}",
+        col.violation(f"sjoin.rows.{how}", dict(case, form=tag or "pandas"),
+                      f"{tag}how={how} kind={kind} left={jelem(tuple(lrows))} right rows={len(rrows)}: missing {missing} unexpected {extra_rows}",
                       how=how, kind=kind)
-    col.outcome(f"{how}:pairs={min(npairs, 4)}")
 
 
 def large_case(col, how, page_hint):
